@@ -622,7 +622,7 @@ def pade(ctx, a, L, M):
 
     if M == 0:
         if L == 0:
-            return [ctx.one], [ctx.one]
+            return [a[0]], [ctx.one]
         else:
             return a[:L+1], [ctx.one]
 
